@@ -51,16 +51,6 @@ theorem HP.setSlot (t : Nat) (v : Env × Env) : HP (IM.setSlot t v) := by
   intro st r st' h; simp only [IM.setSlot, Except.ok.injEq, Prod.mk.injEq] at h; rw [← h.2]; exact List.prefix_refl _
 theorem HP.getSlot (t : Nat) : HP (IM.getSlot t) := by
   intro st r st' h; simp only [IM.getSlot, Except.ok.injEq, Prod.mk.injEq] at h; rw [← h.2]; exact List.prefix_refl _
-theorem HP.applyErr {α} (b : Bool) {m : IM α} (hm : HP m) : HP (IM.applyErr b m) := by
-  intro st r st' h
-  have h1 := hm st r st'
-  unfold IM.applyErr at h
-  generalize m st = x at h h1
-  obtain ⟨fl, x⟩ := x
-  cases x with
-  | ok v => exact h1 h
-  | error e => cases e <;> simp at h
-
 /-- basic steps, tried in order -/
 macro "hp_basic" : tactic => `(tactic| first
   | exact HP.ret _ | exact HP.thr _ | exact HP.lift _ | exact HP.single _ | exact HP.alloc _
@@ -77,12 +67,6 @@ theorem hp_checkArity (a n : Nat) : HP (checkArity a n) := by
   unfold checkArity
   apply HP.bnd (HP.getObj _); intro o
   split <;> hp_basic
-
-omit hs in
-theorem hp_noteArity (a n : Nat) : HP (noteArity a n) := by
-  unfold noteArity
-  apply HP.bnd (HP.getObj _); intro o
-  exact HP.flag _ rfl
 
 theorem hp_currentVars (o : FObj) : HP (currentVars cfg o) := by
   unfold currentVars
@@ -129,8 +113,7 @@ theorem hp_partialApply (c : ICtx) (D : Env) (a : Nat) (args : List (Option Expr
   unfold partialApply
   apply HP.bnd (HP.getObj _); intro o
   split
-  · apply HP.bnd (HP.flag _ rfl); intro _
-    apply HP.bnd (hp_currentVars cfg hs o); intro vars
+  · apply HP.bnd (hp_currentVars cfg hs o); intro vars
     apply HP.bnd (hp_evalArgs ev hev c _ _); intro r
     exact HP.bnd (HP.alloc _) (fun _ => HP.ret _)
   · exact HP.thr _
@@ -141,28 +124,9 @@ theorem hp_funArgEval (c : ICtx) (D : Env) (f : Expr) : HP (funArgEval ev c D f)
   exact HP.bnd (hev _ _ _) (fun v => HP.bnd (HP.single _) (fun _ => HP.ret _))
 
 omit hs in
-theorem hp_funArg (c : ICtx) (D : Env) (f : Expr) : HP (funArg ev c D f) := by
-  cases f
-  case fnE t ps body =>
-    simp only [funArg]; exact HP.bnd (HP.alloc _) (fun _ => HP.ret _)
-  all_goals
-    simp only [funArg]
-    exact hp_funArgEval ev hev c D _
-
-omit hs in
-theorem hp_funArgNote (c : ICtx) (D : Env) (f : Expr) (n : Nat) : HP (funArgNote ev c D f n) := by
-  unfold funArgNote
-  exact HP.bnd (hp_funArg ev hev c D f) (fun fa => HP.bnd (hp_noteArity _ _) (fun _ => HP.ret _))
-
-omit hs in
 theorem hp_funArgCheck (c : ICtx) (D : Env) (f : Expr) (n : Nat) : HP (funArgCheck ev c D f n) := by
   unfold funArgCheck
-  exact HP.bnd (hp_funArg ev hev c D f) (fun fa => HP.bnd (hp_checkArity _ _) (fun _ => HP.ret _))
-
-omit hs in
-theorem hp_funArgEvalNote (c : ICtx) (D : Env) (f : Expr) (n : Nat) : HP (funArgEvalNote ev c D f n) := by
-  unfold funArgEvalNote
-  exact HP.bnd (hp_funArgEval ev hev c D f) (fun fa => HP.bnd (hp_noteArity _ _) (fun _ => HP.ret _))
+  exact HP.bnd (hp_funArgEval ev hev c D f) (fun fa => HP.bnd (hp_checkArity _ _) (fun _ => HP.ret _))
 
 omit hs in
 theorem hp_forLoop (c : ICtx) (x : Nat) (b : Expr) : ∀ (is : Seq) (D : Env) (acc : Seq), HP (forLoop ev c x b D acc is)
@@ -305,11 +269,11 @@ theorem hp_step (e : Expr) (c : ICtx) (D : Env) : HP (step cfg ev e c D) := by
     exact HP.bnd (hev _ _ _) (fun _ => hp_mapLoop ev hev _ _ _ _ _ _ _)
   | forEach s f =>
     simp only [step]
-    exact HP.bnd (hp_funArgNote ev hev _ _ _ _) (fun _ => HP.bnd (hev _ _ _)
+    exact HP.bnd (hp_funArgCheck ev hev _ _ _ _) (fun _ => HP.bnd (hev _ _ _)
       (fun _ => hp_hofForEach cfg hs ev hev _ _ _ _ _))
   | filter s f =>
     simp only [step]
-    exact HP.bnd (hp_funArgNote ev hev _ _ _ _) (fun _ => HP.bnd (hev _ _ _)
+    exact HP.bnd (hp_funArgCheck ev hev _ _ _ _) (fun _ => HP.bnd (hev _ _ _)
       (fun _ => hp_hofFilter cfg hs ev hev _ _ _ _ _))
   | foldL s z f =>
     simp only [step]
@@ -328,17 +292,22 @@ theorem hp_step (e : Expr) (c : ICtx) (D : Env) : HP (step cfg ev e c D) := by
     · exact HP.bnd (hev _ _ _) (fun _ => hp_hofPairs cfg hs ev hev _ _ _ _ _)
   | sortK s f =>
     simp only [step]
-    apply HP.bnd (hp_funArgEvalNote ev hev _ _ _ _); intro fa
+    apply HP.bnd (hp_funArgCheck ev hev _ _ _ _); intro fa
     apply HP.bnd (hev _ _ _); intro xs
     split
     · exact HP.ret _
-    · exact HP.bnd (hp_hofKeys cfg hs ev hev _ _ _ _ _) (fun _ => HP.ret _)
+    · apply HP.bnd (hp_hofKeys cfg hs ev hev _ _ _ _ _); intro ks
+      split
+      · exact HP.ret _
+      · exact HP.thr _
   | apply f ms =>
     simp only [step]
-    apply HP.bnd (hp_funArg ev hev _ _ _); intro fa
+    apply HP.bnd (hp_funArgEval ev hev _ _ _); intro fa
     apply HP.bnd (hp_evalList ev hev _ _ _); intro vals
     apply HP.bnd (HP.getObj _); intro o
-    exact HP.applyErr _ (hp_callFn cfg hs ev hev _ _ _ _)
+    split
+    · exact hp_callFn cfg hs ev hev _ _ _ _
+    · exact HP.thr _
 
 end
 
